@@ -450,6 +450,12 @@ def run_vector(v: dict) -> dict:
     return {"shape": shape_str(sh), "sh": sh, "sem": sem, "ir": ir, "line": member_line(r.code), "member": real["member"]}
 
 
+def _init_worker(parent_scratch: str) -> None:
+    # pool workers do not run atexit handlers: keep their scratch files under the parent's root,
+    # which the parent removes when the check ends
+    e2e._scratch_root = parent_scratch
+
+
 def _worker(chunk: list[dict]) -> list[dict]:
     import warnings
 
@@ -463,7 +469,7 @@ def run_vectors(vs: list[dict], workers: int = 14) -> list[dict]:
     n = max(1, min(workers, (os.cpu_count() or 2) - 1))
     size = max(8, min(64, len(vs) // (n * 4) + 1))
     chunks = [vs[i : i + size] for i in range(0, len(vs), size)]
-    with ProcessPoolExecutor(max_workers=n) as ex:
+    with ProcessPoolExecutor(max_workers=n, initializer=_init_worker, initargs=(e2e.scratch_root(),)) as ex:
         res = list(ex.map(_worker, chunks))
     return [x for c in res for x in c]
 
@@ -553,6 +559,8 @@ def clause_failures(v: dict, sem: dict, shape: str, ir_required: bool | None) ->
     out = []
     if not sem["loads"]:
         out.append({"clause": "class_creation", "mechanism": sem.get("loads_error", "exec_error")})
+        if v["kind"] != "msgspec.Struct":
+            return out  # the class does not exist: nothing else can be observed (msgspec is read statically)
     if not omittable:
         if not sem["must"] and (N or not D):
             clause = "required_nullable_stays_required" if N else "required_nodefault_must_supply"
@@ -795,7 +803,6 @@ def replay(ck: Check, path: str) -> int:
     if not v:
         print("replay: no vector in the replay file")
         return 2
-    ck.findings = []
     camps = make_campaigns(ck)
     r = run_vector(v)
     rep = ck.driver.run([driver_request(v)])[0]
@@ -806,6 +813,8 @@ def replay(ck: Check, path: str) -> int:
         print("REPLAY-FAILS:", json.dumps(f.classification), f.observed[:300])
     for d in ck.disagreements:
         print("REPLAY-DISAGREES:", d.campaign[:40], "model:", d.model, "impl:", d.impl)
+    for k, n in ck.known_hits.items():
+        print(f"replay: {n} failure(s) on this input match known finding {k}")
     if not ck.failures:
-        print("replay: the oracle does not fail on this input")
+        print("replay: the oracle does not fail on this input" + (" beyond known findings" if ck.known_hits else ""))
     return 1 if ck.failures else 0
